@@ -213,6 +213,15 @@ func (p *Program) compile(fn *ssa.Function) *fnInfo {
 		info.native = nat
 		return info
 	}
+	if nat := protoGeneratedNative(fn); nat != nil {
+		info.native = nat
+		return info
+	}
+	if strings.HasPrefix(fn.Name(), "file_") && (strings.HasSuffix(fn.Name(), "_proto_init") || strings.HasSuffix(fn.Name(), "_rawDescGZIP")) {
+		// generated protobuf registration code: not needed by the codec model
+		info.native = func(r *Run, g *Goroutine, args []Value) Value { return zeroResult(fn) }
+		return info
+	}
 	if rep, ok := p.replace[name]; ok {
 		rf := p.funcByFullName(rep)
 		if rf == nil {
@@ -337,4 +346,59 @@ func (p *Program) implements(t types.Type, it *types.Interface) bool {
 	ok := types.Implements(t, it)
 	p.implMemo.Store(key, ok)
 	return ok
+}
+
+// protoGeneratedNative recognises protoc-gen-go boilerplate methods by shape.
+func protoGeneratedNative(fn *ssa.Function) nativeFn {
+	sig := fn.Signature
+	if sig.Recv() == nil {
+		return nil
+	}
+	rt := sig.Recv().Type()
+	if pt, ok := rt.Underlying().(*types.Pointer); ok {
+		st, ok := pt.Elem().Underlying().(*types.Struct)
+		if !ok || st.NumFields() == 0 || st.Field(0).Name() != "state" || !strings.Contains(st.Field(0).Type().String(), "MessageState") {
+			return nil
+		}
+		elem := pt.Elem()
+		switch fn.Name() {
+		case "Reset":
+			return func(r *Run, g *Goroutine, args []Value) Value {
+				p := args[0].(*Value)
+				if p == nil {
+					r.panicRuntime(g, "invalid memory address or nil pointer dereference")
+				}
+				*p = zero(elem)
+				return nil
+			}
+		case "String":
+			return func(r *Run, g *Goroutine, args []Value) Value { return "<" + elem.String() + ">" }
+		case "ProtoMessage":
+			return func(r *Run, g *Goroutine, args []Value) Value { return nil }
+		case "ProtoReflect":
+			return func(r *Run, g *Goroutine, args []Value) Value {
+				r.abort("ProtoReflect reached on %v", elem)
+				return nil
+			}
+		}
+		return nil
+	}
+	// enums: named integer types with String() via protoimpl
+	if b, ok := rt.Underlying().(*types.Basic); ok && b.Kind() == types.Int32 && fn.Name() == "String" && fn.Pkg != nil {
+		for _, blk := range fn.Blocks {
+			for _, ins := range blk.Instrs {
+				if c, ok := ins.(*ssa.Call); ok {
+					if callee := c.Call.StaticCallee(); callee != nil && strings.Contains(callee.String(), "EnumStringOf") {
+						return func(r *Run, g *Goroutine, args []Value) Value {
+							if v, ok := args[0].(uint64); ok {
+								return fmt.Sprintf("%s(%d)", rt.String(), int64(v))
+							}
+							return rt.String() + "(?)"
+						}
+					}
+				}
+			}
+		}
+	}
+	return nil
 }
